@@ -253,20 +253,21 @@ def wire_impl(c):
             mbs.append(f"{k}|{int(m.lazy)}|{mm}|{drive}|{','.join(t.name for t in m._threads)}")
             for t in m._threads:
                 a0 = t._args[0]
-                free = ""
+                free, outs = "", ""
                 if a0.gi_code.co_name == "_read":
                     subs = [_read_sub(a0, key_of)]
                     kw = getattr(t._target, "keywords", None) or {}
                     if "flow_freely" in kw:
                         free = "+".join(sorted(kw["flow_freely"]))
+                        outs = "+".join(kw["outputs"])
                         assert list(kw["outputs"]) == list(kw["mailboxes"].keys())
                 elif a0.gi_code.co_name == "iter":
                     iters = a0.gi_frame.f_locals["iters"]
                     subs = [_read_sub(g, key_of) for g in iters.values()]
                 else:
                     subs = []
-                ths.append(f"{t.name}<{'+'.join(subs)}>{{{free}}}")
-        ths.append(f"main<{_read_sub(main_gen, key_of)}>{{}}")
+                ths.append(f"{t.name}<{'+'.join(subs)}>{{{free}}}[{outs}]")
+        ths.append(f"main<{_read_sub(main_gen, key_of)}>{{}}[]")
         return f"ok {';'.join(mbs)} # {';'.join(ths)}"
     finally:
         if pr.thread_executor is not None:
